@@ -8,7 +8,8 @@ use std::collections::VecDeque;
 struct Streams {
     states: Vec<u64>,
     current: usize,
-    forced_u32: VecDeque<u32>,
+    /// per stream
+    forced_u32: Vec<VecDeque<u32>>,
     draws: u64,
 }
 
@@ -16,7 +17,7 @@ thread_local! {
     static STREAMS: RefCell<Streams> = RefCell::new(Streams {
         states: vec![0x9E3779B97F4A7C15],
         current: 0,
-        forced_u32: VecDeque::new(),
+        forced_u32: vec![VecDeque::new()],
         draws: 0,
     });
 }
@@ -36,7 +37,7 @@ pub fn reset(seed: u64, count: usize) {
         let mut root = seed ^ 0xD1B54A32D192ED03;
         s.states = (0..count.max(1)).map(|_| splitmix(&mut root)).collect();
         s.current = 0;
-        s.forced_u32.clear();
+        s.forced_u32 = (0..count.max(1)).map(|_| VecDeque::new()).collect();
         s.draws = 0;
     });
 }
@@ -50,9 +51,13 @@ pub fn select(stream: usize) {
     });
 }
 
-/// Queues a value to be returned by the next `random::<u32>()` call (any stream).
+/// Queues a value to be returned by the next `random::<u32>()` call of the current stream.
 pub fn force_next_u32(value: u32) {
-    STREAMS.with(|s| s.borrow_mut().forced_u32.push_back(value));
+    STREAMS.with(|s| {
+        let mut s = s.borrow_mut();
+        let cur = s.current;
+        s.forced_u32[cur].push_back(value);
+    });
 }
 
 /// Number of values drawn since the last reset.
@@ -81,7 +86,11 @@ impl VerifRandom for bool {
 
 impl VerifRandom for u32 {
     fn verif_random() -> Self {
-        let forced = STREAMS.with(|s| s.borrow_mut().forced_u32.pop_front());
+        let forced = STREAMS.with(|s| {
+            let mut s = s.borrow_mut();
+            let cur = s.current;
+            s.forced_u32[cur].pop_front()
+        });
         if let Some(v) = forced {
             return v;
         }
